@@ -62,6 +62,14 @@ fn spellings(t: i64) -> Vec<(&'static str, Value)> {
         v.push(("rfc3339 -05:30", json!(iso(t, -330, ""))));
         v.push(("rfc3339 +14:00", json!(iso(t, 840, ""))));
         v.push(("rfc3339 fractional", json!(iso(t, 0, ".250"))));
+        // fractions at and above one half: every spelling of t + fraction lies in second t
+        v.push(("rfc3339 fractional .500", json!(iso(t, 0, ".500"))));
+        v.push(("rfc3339 fractional .750 +01:00", json!(iso(t, 60, ".750"))));
+        v.push(("rfc3339 fractional .999999", json!(iso(t, 0, ".999999"))));
+    }
+    v.push(("float seconds .7", json!(t as f64 + 0.7)));
+    if let Some(ms) = t.checked_mul(1000) {
+        v.push(("int milliseconds +700", json!(ms + 700)));
     }
     v
 }
@@ -176,6 +184,8 @@ pub fn check(tier: &str) -> i32 {
                 qs.push((format!("where|{pt}|{op}|int seconds"), format!("QUERY z WHERE d {op} {pt}")));
                 qs.push((format!("where|{pt}|{op}|rfc3339 Z"), format!("QUERY z WHERE d {op} \"{}\"", iso(*pt, 0, ""))));
                 qs.push((format!("where|{pt}|{op}|rfc3339 +01:00"), format!("QUERY z WHERE d {op} \"{}\"", iso(*pt, 60, ""))));
+                qs.push((format!("where|{pt}|{op}|rfc3339 fractional .750"), format!("QUERY z WHERE d {op} \"{}\"", iso(*pt, 0, ".750"))));
+                qs.push((format!("where|{pt}|{op}|int milliseconds +700"), format!("QUERY z WHERE d {op} {}", pt * 1000 + 700)));
             }
         }
         if sname.starts_with("narrow") {
@@ -331,7 +341,7 @@ pub fn check(tier: &str) -> i32 {
         coverage: json!({
             "evaluations": judged,
             "distinct_nontrivial": nontrivial,
-            "rule": "instants {-86401, -1, 0, 1, 59, 3599, 3600, 86399, 86400, 999999999, 1e9, 99999999999, 1.7e9, 4e9} (memory) and a cluster around hour / day / week / month boundaries of 2023-11 plus a summer instant (memory and flushed) x spellings {int s/ms/us/ns, the same as strings, float seconds, RFC 3339 with Z, +01:00, -05:30, +14:00, fractional seconds} on four sites: (1) STORE payload of a datetime field (and a date field) - the value read back must be the instant's epoch second; (2) SINCE \"<spelling>\" USING d; (3) WHERE d <op> <literal> for all six operators with epoch-second and RFC 3339 literals; (4) COUNT PER {HOUR..YEAR} USING d; sites 2-4 are judged against the values the system itself returns for the rows; configurations timezone x week start; distinct_nontrivial = STORE cases + probes whose expected answer is a proper non-empty subset + PER probes",
+            "rule": "instants {-86401, -1, 0, 1, 59, 3599, 3600, 86399, 86400, 999999999, 1e9, 99999999999, 1.7e9, 4e9} (memory) and a cluster around hour / day / week / month boundaries of 2023-11 plus a summer instant (memory and flushed) x spellings {int s/ms/us/ns, the same as strings, float seconds, RFC 3339 with Z, +01:00, -05:30, +14:00, fractional seconds .250/.500/.750/.999999, float seconds + 0.7, milliseconds + 700} on four sites: (1) STORE payload of a datetime field (and a date field) - the value read back must be the instant's epoch second; (2) SINCE \"<spelling>\" USING d; (3) WHERE d <op> <literal> for all six operators with epoch-second, millisecond, RFC 3339 and fractional RFC 3339 literals; (4) COUNT PER {HOUR..YEAR} USING d; sites 2-4 are judged against the values the system itself returns for the rows; configurations timezone x week start; distinct_nontrivial = STORE cases + probes whose expected answer is a proper non-empty subset + PER probes",
             "samples": rows_for(&[1_700_000_000]).iter().map(|r| json!({"instant": r.t, "spelling": r.spelling, "sent": r.value})).collect::<Vec<_>>(),
             "configurations": cfgs,
             "failing_cases": failing.len(),
